@@ -109,6 +109,10 @@ class StubsStringGenerator:
                 module_text = module_header + module_text
                 module_data.append((Path(out_path / self._get_module_id()), module_name, module_text, True))
 
+        # The collected declarations belong to this generation only
+        self.reexport_modules = defaultdict(list)
+        self.currently_creating_reexport_data = False
+
         return module_data
 
     def _create_module_string(self, module: Module) -> tuple[str, str]:
